@@ -47,11 +47,15 @@ def _coord(v) -> str:
     return repr(float(v))
 
 
+def _coord6(v) -> str:
+    return f"{v:.6f}"
+
+
 def enc_opt_int(v) -> str:
     return "_" if v is None else str(int(v))
 
 
-def enc_atom(d: dict) -> list[str]:
+def enc_atom(d: dict, coord=_coord) -> list[str]:
     unknown = set(d) - KNOWN_ATOM_KEYS
     if unknown:
         raise ValueError(f"atom attribute outside the modelled set: {unknown}")
@@ -60,7 +64,7 @@ def enc_atom(d: dict) -> list[str]:
     for k in ("atomic_number", "partition", "mass", "rad", "chg"):
         t.append(enc_opt_int(d.get(k)))
     for k in ("x_coord", "y_coord", "z_coord"):
-        t.append("_" if k not in d else esc(_coord(d[k])))
+        t.append("_" if k not in d else esc(coord(d[k])))
     if "invariant_code" not in d:
         t.append("_")
     else:
@@ -78,11 +82,11 @@ def enc_bond(d: dict) -> list[str]:
     return [enc_opt_int(d.get("bond_type")), "_" if TAG not in d else esc(str(d[TAG]))]
 
 
-def enc_graph(g: nx.Graph) -> list[str]:
+def enc_graph(g: nx.Graph, coord=_coord) -> list[str]:
     t = [str(g.number_of_nodes())]
     for n, d in g.nodes(data=True):
         t.append(str(int(n)))
-        t += enc_atom(d)
+        t += enc_atom(d, coord)
         nb = g._adj[n]
         t.append(str(len(nb)))
         for v, bd in nb.items():
